@@ -3,6 +3,7 @@ CONSTANTS
   Kind = "fallback"
   Ops = {"o1", "o2"}
   FileOps = {"o2"}
+  SrcType = "pipe"
   MaxPend = 3
   MaxH = 5
   ResetProvides = TRUE
